@@ -150,29 +150,31 @@ def run(run):
         f.writelines(ids); f.write('{"op":"reset"}\n'); f.writelines(sess)
     ok, mm = run.validate("trace/Trace_Cal.tla", "trace/Trace_Cal.cfg", small, label="negctl_clean", count=False)
     if mm:
-        raise ToolError(f"negative control baseline is not clean: {mm[0]}")
-    evs = [json.loads(l) for l in open(small)]
-    want = set()
-    days = [e for e in evs if e.get("op") == "Cal.Day" and e["out"]["kind"] == "ok"]
-    days[len(days) // 2]["out"]["val"]["dim"] += 1; want.add("Cal.Day")
-    rb = [e for e in evs if e.get("op") == "Cal.Rebuild" and e["out"]["kind"] == "ok"]
-    rb[len(rb) // 2]["out"]["val"]["iso"]["d"] = rb[len(rb) // 2]["out"]["val"]["iso"]["d"] % 27 + 1; want.add("Cal.Rebuild")
-    wc = [e for e in evs if e.get("op") == "Cal.WithCalendar" and e["out"]["kind"] == "ok"]
-    if wc:
-        wc[0]["out"]["val"]["iso"]["y"] += 1; want.add("Cal.WithCalendar")
-    idv = [e for e in evs if e.get("op") == "Cal.Id" and e["out"]["kind"] == "ok" and e["args"]["s"] != e["out"]["val"]["id"]]
-    if idv:
-        idv[0]["out"] = {"kind": "range"}; want.add("Cal.Id")
-    bad = os.path.join(run.dir, "negctl_corrupt.trace.ndjson")
-    with open(bad, "w") as f:
-        for e in evs:
-            f.write(json.dumps(e) + "\n")
-    rejected, mm = run.validate("trace/Trace_Cal.tla", "trace/Trace_Cal.cfg", bad, label="negctl_corrupt", count=False, expect_reject=True)
-    got = {m["op"] for m in mm}
-    run.cov["negative_controls"].append(dict(kind="trace", corrupted=sorted(want), flagged=sorted(got), rejected=bool(rejected)))
-    if not want <= got:
-        raise ToolError(f"negative control: corrupted events of kinds {sorted(want - got)} were ACCEPTED (binding broken)")
-    log(f"[negctl] corrupted trace: {len(mm)} mismatches flagged in {sorted(got)} as expected")
+        # the mismatches are already recorded as candidate violations by validate(); the control itself cannot be run on a dirty baseline
+        log(f"[negctl] skipped: the baseline session is not accepted ({len(mm)} mismatches, first: {mm[0].get('op')} {mm[0].get('cls')})")
+    else:
+        evs = [json.loads(l) for l in open(small)]
+        want = set()
+        days = [e for e in evs if e.get("op") == "Cal.Day" and e["out"]["kind"] == "ok"]
+        days[len(days) // 2]["out"]["val"]["dim"] += 1; want.add("Cal.Day")
+        rb = [e for e in evs if e.get("op") == "Cal.Rebuild" and e["out"]["kind"] == "ok"]
+        rb[len(rb) // 2]["out"]["val"]["iso"]["d"] = rb[len(rb) // 2]["out"]["val"]["iso"]["d"] % 27 + 1; want.add("Cal.Rebuild")
+        wc = [e for e in evs if e.get("op") == "Cal.WithCalendar" and e["out"]["kind"] == "ok"]
+        if wc:
+            wc[0]["out"]["val"]["iso"]["y"] += 1; want.add("Cal.WithCalendar")
+        idv = [e for e in evs if e.get("op") == "Cal.Id" and e["out"]["kind"] == "ok" and e["args"]["s"] != e["out"]["val"]["id"]]
+        if idv:
+            idv[0]["out"] = {"kind": "range"}; want.add("Cal.Id")
+        bad = os.path.join(run.dir, "negctl_corrupt.trace.ndjson")
+        with open(bad, "w") as f:
+            for e in evs:
+                f.write(json.dumps(e) + "\n")
+        rejected, mm = run.validate("trace/Trace_Cal.tla", "trace/Trace_Cal.cfg", bad, label="negctl_corrupt", count=False, expect_reject=True)
+        got = {m["op"] for m in mm}
+        run.cov["negative_controls"].append(dict(kind="trace", corrupted=sorted(want), flagged=sorted(got), rejected=bool(rejected)))
+        if not want <= got:
+            raise ToolError(f"negative control: corrupted events of kinds {sorted(want - got)} were ACCEPTED (binding broken)")
+        log(f"[negctl] corrupted trace: {len(mm)} mismatches flagged in {sorted(got)} as expected")
     # ---- bookkeeping
     distinct = set()
     cal_days = {}
